@@ -21,7 +21,11 @@ from simkit.runner import Engine, Result
 
 P = "C04"
 COLORS = [1, 16, 88, 256, 2**24]
-ENC = {"utf8": "utf-8", "narrow": "iso8859-1", "wide": "euc-jp"}
+ENC = {"utf8": "utf-8", "narrow": "iso8859-1", "wide": "euc-jp", "narrow2": "koi8-r", "wide2": "gbk"}
+# encodings whose printable characters use bytes 0x80-0x9f (C1 controls in ISO 8859): KOI8-R box drawing and Cyrillic,
+# GBK characters with such a lead or trail byte (trail bytes kept >= 0x80: width arithmetic on ASCII-range trail bytes is C11's)
+NARROW2_CHARS = "─│┌█░▒▓жЖя"
+WIDE2_CHARS = "試們國來"
 WIDE_CHARS = "日本語漢字あア"
 COMBINING = "́"
 DEC_ALT = "_`abcdefghijklmnopqrstuvwxyz{|}~"
@@ -479,8 +483,8 @@ class DisplayEngine(Engine):
         used = 0
         while used < width:
             q = rng.random()
-            if q < 0.12 and enc != "narrow" and used + 2 <= width:
-                out += rng.choice(WIDE_CHARS)
+            if q < 0.12 and enc not in ("narrow", "narrow2") and used + 2 <= width:
+                out += rng.choice(WIDE2_CHARS if enc == "wide2" else WIDE_CHARS)
                 used += 2
             elif q < 0.16 and enc == "utf8" and out and out[-1] not in WIDE_CHARS and ord(out[-1]) > 32:
                 out += COMBINING
@@ -490,8 +494,8 @@ class DisplayEngine(Engine):
             elif q < 0.45:
                 out += " "
                 used += 1
-            elif q < 0.5 and enc != "wide":
-                out += rng.choice("éüñ") if enc in ("utf8", "narrow") else "e"
+            elif q < 0.5 and enc not in ("wide", "wide2"):
+                out += rng.choice(NARROW2_CHARS) if enc == "narrow2" else rng.choice("éüñ") if enc in ("utf8", "narrow") else "e"
                 used += 1
             else:
                 out += chr(rng.randrange(0x21, 0x7F))
@@ -532,7 +536,7 @@ class DisplayEngine(Engine):
         return f
 
     def generate(self, rng: random.Random, tier: str) -> dict:
-        enc = rng.choice(["utf8", "utf8", "narrow", "wide"])
+        enc = rng.choice(["utf8", "utf8", "utf8", "narrow", "wide", "narrow2", "wide2"])
         # C0 control characters in canvas text: always possible in narrow/wide encodings, only in a
         # fraction of the UTF-8 runs (there they hit a known finding that masks everything else)
         self._ctl = rng.random() < (0.5 if enc != "utf8" else 0.15)
